@@ -378,3 +378,13 @@ def l7(ctx):
 def l8(ctx):
     from .c06 import u1
     return [o for o in u1(ctx) if o.detail == "a different holder always refuses"]
+
+
+@rule("C05", "L9", floor=4, kind="N",
+      desc="what a refusal is decided from is complete and conditional: get_uid looks at every component (C06/U4), and "
+           "the etag a DELETE was checked against is handed down to the store, so that the store re-checks it inside its "
+           "critical section (C03/P2)")
+def l9(ctx):
+    from .c06 import u4
+    from .c03 import p2
+    return list(u4(ctx)) + [o for o in p2(ctx) if "DeleteMethod" in o.construct or "delete_member" in o.construct]
